@@ -10,10 +10,12 @@ import json
 from aw_transform import union_no_overlap
 from mc.core import Agg, Unit
 from mc.drivers import stores as S
+from datetime import timedelta
+
 from mc.lattice import Emb, chunked
 
 BOUNDS = {
-    "quick": {"lists": "all sorted sequences of <=3 events (start, duration>=0, consecutive gap >= 0) on lattice 0..5; full product of pairs; unit 1 s; pairs of <=2 on 0..4 also at 1 ms"},
+    "quick": {"lists": "all sorted sequences of <=3 events (start, duration>=0, consecutive gap >= 0) on lattice 0..5; full product of pairs; unit 1 s; pairs of <=2 on 0..4 also at 1 ms, and on 0..5 at a 23 ms step from xx.028 s (float-unfriendly instants)"},
     "thorough": {"lists": "<=3 events on 0..6 full product; 4 events on 0..5 against <=2 events both ways; units 1 s and 1 ms"},
 }
 RULE = (
@@ -118,6 +120,12 @@ def _unit(args):
     unit_us, As, Bname = args
     ctx = _G["ctx"]
     emb = Emb(ctx.base, unit_us)
+    if unit_us == 23_000:
+        # instants such as 12:00:00.028 + 92 ms whose float epoch seconds do not add up exactly
+        # (a seeded ordering comparison in float seconds dropped events on such a grid)
+        from datetime import timedelta as _td
+
+        emb = Emb(ctx.base + _td(milliseconds=28), unit_us)
     u = Unit()
     for a in As:
         for b in _G["sets"][Bname]:
@@ -135,6 +143,55 @@ def _unit(args):
     return u.result()
 
 
+def _unit_subms(As):
+    """list-one events ending INSIDE a millisecond (duration + 500 us): an exact cut is not representable
+    (timestamps have ms resolution), so the oracle allows 1 ms per cut -- but nothing may be lost, the call
+    must come back promptly, list one must be intact.  (The first repair of union_no_overlap re-split the
+    same event ~26 000 times on such input and dropped the remainder.)"""
+    import time as _time
+
+    ctx = _G["ctx"]
+    emb = Emb(ctx.base, 1_000)
+    u = Unit()
+    for a in As:
+        for b in _G["sets"]["N4n2"]:
+            A = [emb.ev(s, d, {"label": f"a{i}"}) for i, (s, d) in enumerate(a)]
+            for e in A:
+                if e.duration.total_seconds() > 0:
+                    e.duration = e.duration + timedelta(microseconds=500)
+            # list one must stay non-overlapping after the extension
+            if any(A[i].timestamp + A[i].duration > A[i + 1].timestamp for i in range(len(A) - 1)):
+                continue
+            B = mk(emb, b, "b")
+            t0 = _time.time()
+            try:
+                out = union_no_overlap(A, B)
+            except Exception as ex:
+                u.violation("union_no_overlap:raised", f"{type(ex).__name__}: {ex}", {"kind": "subms", "a": [list(x) for x in a], "b": [list(x) for x in b]})
+                continue
+            dt = _time.time() - t0
+            u.evaluations += 1
+            u.transitions += 1
+            u.states += 1
+            u.nontrivial += 1
+            case = {"kind": "subms", "a": [list(x) for x in a], "b": [list(x) for x in b]}
+            if dt > 0.5:
+                u.violation("union_no_overlap:sub-ms-end:pathologically-slow", f"union_no_overlap({list(a)} with +500us ends, {list(b)}) took {dt:.2f} s", case, size=len(a) + len(b))
+            a_out = [(S.us_of(e.timestamp), S.dus_of(e.duration)) for e in out if e.data["label"].startswith("a")]
+            if a_out != [(S.us_of(e.timestamp), S.dus_of(e.duration)) for e in A]:
+                u.violation("union_no_overlap:sub-ms-end:list-one-changed", f"{list(a)} / {list(b)}: list-one events in output {a_out}", case, size=len(a) + len(b))
+            # uncovered time of list two in microseconds
+            cover = [(S.us_of(e.timestamp), S.us_of(e.timestamp) + S.dus_of(e.duration)) for e in A]
+            for j, (s2, d2) in enumerate(b):
+                lo, hi = S.us_of(emb.t(s2)), S.us_of(emb.t(s2 + d2))
+                want = hi - lo - sum(max(0, min(hi, c1) - max(lo, c0)) for c0, c1 in cover)
+                have = sum(S.dus_of(e.duration) for e in out if e.data["label"] == f"b{j}")
+                if abs(have - want) > 1000 * (len(a) + 1):
+                    u.violation("union_no_overlap:sub-ms-end:list-two-time-wrong", f"{list(a)} (+500us ends) / {list(b)}: b{j} keeps {have} us, {want} us of it are outside list one", case, size=len(a) + len(b))
+    u.sample({"kind": "sub-millisecond ends", "list_one": [list(x) for x in As[-1]] if As else []}, cap=1)
+    return u.result()
+
+
 def shape(a, b):
     """coarse signature of the input used in violation keys: which structural feature is present"""
     f = []
@@ -149,6 +206,10 @@ def shape(a, b):
     return "+".join(f) or "plain"
 
 
+def _dispatch(x):
+    return _unit_subms(x[1]) if x[0] == "subms" else _unit(x[1])
+
+
 def run(ctx):
     _G["ctx"] = ctx
     sets = {}
@@ -161,6 +222,9 @@ def run(ctx):
             units.append((1_000_000, ch, "N5n3"))
         for ch in chunked(sets["N4n2"], ctx.workers):
             units.append((1_000, ch, "N4n2"))
+        sets["N5n2"] = seqs(5, 2)
+        for ch in chunked(sets["N5n2"], ctx.workers):
+            units.append((23_000, ch, "N5n2"))
     else:
         sets["N6n3"] = seqs(6, 3)
         sets["N5n2"] = seqs(5, 2)
@@ -172,8 +236,10 @@ def run(ctx):
             units.append((1_000_000, ch, "N5n2"))
         for ch in chunked(sets["N5n2"], ctx.workers * 2):
             units.append((1_000_000, ch, "N5n4"))
+    sets.setdefault("N4n2", seqs(4, 2))
+    units = [("plain", x) for x in units] + [("subms", ch) for ch in chunked(seqs(5, 2), ctx.workers)]
     agg = Agg()
-    for r in ctx.pmap(_unit, units):
+    for r in ctx.pmap(_dispatch, units):
         agg.add(r)
     agg.extra["space"] = {k: len(v) for k, v in sets.items()}
     ctx.selfcheck(agg.nontrivial > 0, "no non-trivial pair")
@@ -185,5 +251,9 @@ def run_case(ctx, case):
     emb = Emb(ctx.base, case["unit_us"])
     a = tuple(tuple(x) for x in case["a"])
     b = tuple(tuple(x) for x in case["b"])
+    if case.get("kind") == "subms":
+        _G["sets"] = {"N4n2": [b]}
+        r = _unit_subms([a])
+        return {"violations": [[v["key"], v["what"]] for v in r["violations"]]}
     probs, got = check(emb, a, b)
     return {"list_one": a, "list_two": b, "output": got, "violations": [list(p) for p in probs]}
